@@ -40,6 +40,31 @@ type MessageBadEnumWire struct {
 
 func (*MessageBadEnumWire) GetID() uint32 { return 60005 }
 
+type MessageBadEnumInt16 struct {
+	E uint64 `mavenum:"int16"`
+}
+
+func (*MessageBadEnumInt16) GetID() uint32 { return 60007 }
+
+type MessageBadEnumInt64 struct {
+	E uint64 `mavenum:"int64"`
+}
+
+func (*MessageBadEnumInt64) GetID() uint32 { return 60008 }
+
+type MessageBadEnumString struct {
+	A uint8
+	E [2]uint64 `mavenum:"string"`
+}
+
+func (*MessageBadEnumString) GetID() uint32 { return 60009 }
+
+type MessageBadEnumUnknown struct {
+	E uint64 `mavenum:"uint24"`
+}
+
+func (*MessageBadEnumUnknown) GetID() uint32 { return 60011 }
+
 type MessageBadArrayElem struct {
 	A [2]int
 }
@@ -151,6 +176,11 @@ func cmdC17(o opts) {
 		{"bad_mavlen", []message.Message{&MessageBadMavlen{}}},
 		{"enum_wire_type_float", []message.Message{&MessageBadEnumWire{}}},
 		{"unsupported_array_element", []message.Message{&MessageBadArrayElem{}, &MessageGoodOne{}}},
+		{"enum_wire_type_int16", []message.Message{&MessageGoodOne{}, &MessageBadEnumInt16{}}},
+		{"enum_wire_type_int64", []message.Message{&MessageBadEnumInt64{}}},
+		{"enum_wire_type_string", []message.Message{&MessageBadEnumString{}}},
+		{"enum_wire_type_unknown", []message.Message{&MessageBadEnumUnknown{}}},
+		{"enum_wire_types_all_valid", []message.Message{&MessageUserEnums{}}},
 		{"malformed_last_of_many", append(append([]message.Message{}, com.Messages[:30]...), &MessageBadType{})},
 		{"empty", []message.Message{}},
 	}
